@@ -65,6 +65,8 @@ type Config struct {
 	PanicIsViolation bool     // an uncaught Go panic on a feasible path is a violation
 	Inputs      map[string]uint64 // replay mode: fixed values for named inputs
 	NoMerge     bool
+	NoFallback  bool
+	FallbackMs  int
 	Deadline    time.Time
 	Trace       bool
 }
@@ -111,6 +113,8 @@ type Stats struct {
 	Emits         map[string]uint64
 	Merges        int
 	ModelHits     int
+	Fallbacks     int
+	FallbackTime  time.Duration
 	MergeAborts   map[string]int
 }
 
@@ -148,6 +152,8 @@ func (s *Stats) Merge(o *Stats) {
 	}
 	s.Merges += o.Merges
 	s.ModelHits += o.ModelHits
+	s.Fallbacks += o.Fallbacks
+	s.FallbackTime += o.FallbackTime
 	for k, v := range o.MergeAborts {
 		s.MergeAborts[k] += v
 	}
@@ -216,6 +222,7 @@ type Exec struct {
 	prog   *ssa.Program
 	ctx    *smt.Ctx
 	solver *smt.Solver
+	alt    *smt.Solver
 	cfg    *Config
 	stats  *Stats
 	world  *World
@@ -291,7 +298,12 @@ func NewExec(w *World, cfg *Config) (*Exec, error) {
 	return ex, nil
 }
 
-func (ex *Exec) Close()        { ex.solver.Close() }
+func (ex *Exec) Close() {
+	ex.solver.Close()
+	if ex.alt != nil {
+		ex.alt.Close()
+	}
+}
 func (ex *Exec) Stats() *Stats { return ex.stats }
 
 // RunPath executes harness fn once following trail; returns alternatives found.
@@ -477,6 +489,9 @@ func (ex *Exec) feasibleM(t *smt.Term) smt.Result {
 	if err != nil {
 		panic(&pathEnd{kind: "unknown", msg: err.Error()})
 	}
+	if r == smt.Unknown {
+		r, vals = ex.fallback(t, terms)
+	}
 	if r == smt.Sat {
 		m := make(map[*smt.Term]uint64, len(terms))
 		for i, tm := range terms {
@@ -510,7 +525,48 @@ func (ex *Exec) feasible(t *smt.Term) smt.Result {
 	if err != nil {
 		panic(&pathEnd{kind: "unknown", msg: err.Error()})
 	}
+	if r == smt.Unknown {
+		r, _ = ex.fallback(t, nil)
+	}
 	return r
+}
+
+// fallback re-asks a query the primary solver gave up on (typically 64-bit multiply/divide by
+// 10^9) to cvc5 with the bit-vector-as-integer translation, which keeps the mod-2^k semantics.
+func (ex *Exec) fallback(t *smt.Term, want []*smt.Term) (smt.Result, []uint64) {
+	if ex.cfg.NoFallback {
+		return smt.Unknown, nil
+	}
+	if ex.alt == nil {
+		tmo := ex.cfg.FallbackMs
+		if tmo == 0 {
+			tmo = 30000
+		}
+		a, err := smt.NewSolver("cvc5-int", ex.ctx, tmo)
+		if err != nil {
+			return smt.Unknown, nil
+		}
+		ex.alt = a
+	}
+	ex.stats.Fallbacks++
+	ex.alt.Pop(ex.alt.Depth())
+	for _, p := range ex.pc {
+		ex.alt.Push(p)
+	}
+	q0, t0 := ex.alt.Queries, ex.alt.Time
+	defer func() {
+		ex.stats.Queries += ex.alt.Queries - q0
+		ex.stats.FallbackTime += ex.alt.Time - t0
+	}()
+	var extra []*smt.Term
+	if t != nil {
+		extra = []*smt.Term{t}
+	}
+	r, vals, err := ex.alt.CheckModel(extra, want)
+	if err != nil {
+		return smt.Unknown, nil
+	}
+	return r, vals
 }
 
 // Branch decides a symbolic condition, forking the path when both sides are feasible.
@@ -738,6 +794,9 @@ func (ex *Exec) recordViolation(kind, name, site, msg string) {
 		terms[i] = iv.T
 	}
 	res, vals, err := ex.solver.CheckModel(nil, terms)
+	if err == nil && res == smt.Unknown {
+		res, vals = ex.fallback(nil, terms)
+	}
 	if err == nil && res == smt.Sat {
 		for i, iv := range ex.inputs {
 			v.Inputs[iv.Name] = vals[i]
